@@ -1,18 +1,18 @@
 /-
-Helper lemmas for C02 (not properties themselves): invariants of `resolve` / `foldRes` / `unvisit`.
+Helper lemmas for C02 (not properties themselves): invariants of `resolve` / `foldRes` / `unvisit` / `finish`.
 -/
 import KinModel.Loader
 namespace KinModel.Loader
 
-theorem designates_mono (w : World) : ∀ (f : Nat) (i v : Id), designates w f i = some v →
-    ∀ g, f ≤ g → designates w g i = some v
+theorem designates_mono (w : World) : ∀ (f : Nat) (o v : Obj), designates w f o = some v →
+    ∀ g, f ≤ g → designates w g o = some v
   | 0, _, _, h, _, _ => by simp [designates] at h
-  | f + 1, i, v, h, g, hg => by
+  | f + 1, o, v, h, g, hg => by
     cases g with
     | zero => omega
     | succ g =>
       simp only [designates] at h ⊢
-      cases hn : w.node i with
+      cases hn : w.node o with
       | none => simp [hn] at h
       | some n =>
         simp only [hn] at h ⊢
@@ -20,9 +20,10 @@ theorem designates_mono (w : World) : ∀ (f : Nat) (i v : Id), designates w f i
         | none => simpa [hr] using h
         | some t =>
           simp only [hr] at h ⊢
-          cases ht : w.target i.1 t with
+          cases ht : w.target n.home t n.kind with
           | none => simp [ht] at h
-          | some tgt =>
+          | some p =>
+            obtain ⟨cx', tgt⟩ := p
             simp only [ht] at h ⊢
             cases htn : w.node tgt with
             | none => simp [htn] at h
@@ -33,9 +34,9 @@ theorem designates_mono (w : World) : ∀ (f : Nat) (i v : Id), designates w f i
                 exact designates_mono w f tgt v h g (by omega)
               · simp [hk] at h
 
-theorem get_mem (s : St) (i v : Id) (h : s.get i = some v) : (i, v) ∈ s.value := by
+theorem get_mem (s : St) (o v : Obj) (h : s.get o = some v) : (o, v) ∈ s.value := by
   unfold St.get at h
-  cases hf : s.value.find? (·.1 = i) with
+  cases hf : s.value.find? (·.1 = o) with
   | none => simp [hf] at h
   | some p =>
     simp [hf] at h
@@ -45,30 +46,41 @@ theorem get_mem (s : St) (i v : Id) (h : s.get i = some v) : (i, v) ∈ s.value 
     obtain ⟨a, b⟩ := p
     simp at hp h; subst hp; subst h; exact hm
 
-theorem foldRes_inv (Inv : St → Prop) (f : Nat → St → Res)
-    (hf : ∀ k s s', Inv s → f k s = .ok s' → Inv s') :
-    ∀ ks s s', Inv s → foldRes f ks s = .ok s' → Inv s'
-  | [], s, s', hi, h => by simp [foldRes] at h; subst h; exact hi
-  | k :: ks, s, s', hi, h => by
+def Inv (w : World) (s : St) : Prop := Good w s ∧ PendingOK w s
+
+/-- a step never clears the `foreign` flag and, in runs that end with the flag clear, preserves the invariant -/
+def Pres (w : World) (f : St → Res) : Prop :=
+  ∀ s s', f s = .ok s' → s'.foreign = false → s.foreign = false ∧ (Inv w s → Inv w s')
+
+theorem pres_foldRes (w : World) (f : Nat → St → Res) (hf : ∀ k, Pres w (f k)) :
+    ∀ ks, Pres w (foldRes f ks)
+  | [] => by intro s s' h hfl; simp [foldRes] at h; subst h; exact ⟨hfl, id⟩
+  | k :: ks => by
+    intro s s' h hfl
     simp only [foldRes] at h
     cases hk : f k s with
-    | ok s1 => simp only [hk] at h; exact foldRes_inv Inv f hf ks s1 s' (hf k s s1 hi hk) h
+    | ok s1 =>
+      simp only [hk] at h
+      obtain ⟨h1, h2⟩ := pres_foldRes w f hf ks s1 s' h hfl
+      obtain ⟨h3, h4⟩ := hf k s s1 hk h1
+      exact ⟨h3, fun hi => h2 (h4 hi)⟩
     | err => simp [hk] at h
     | panic => simp [hk] at h
     | outOfFuel => simp [hk] at h
 
 /-- the step that runs the backtrack callbacks: this is where `TextIsGlobal` is needed -/
-theorem unvisit_inv (w : World) (hT : TextIsGlobal w) (t : Text) (i : Id) (n : Node) (v : Option Id) (s s' : St)
-    (hn : w.node i = some n) (hr : n.ref = some t)
-    (hg : Good w s) (hp : PendingOK w s)
-    (hv : ∀ v', v = some v' → ∃ tgt tn f, w.target i.1 t = some tgt ∧ w.node tgt = some tn ∧
+theorem unvisit_inv (w : World) (hT : TextIsGlobal w) (t : Text) (o : Obj) (n : Node) (v : Option Obj) (s s' : St)
+    (hn : w.node o = some n) (hr : n.ref = some t)
+    (hi : Inv w s)
+    (hv : ∀ v', v = some v' → ∃ cx' tgt tn f, w.target n.home t n.kind = some (cx', tgt) ∧ w.node tgt = some tn ∧
             tn.kind = n.kind ∧ designates w f tgt = some v')
-    (h : unvisit w n.kind t i v s = .ok s') : Good w s' ∧ PendingOK w s' := by
+    (h : unvisit w n.kind t v s = .ok s') : s'.foreign = s.foreign ∧ Inv w s' := by
+  obtain ⟨hg, hp⟩ := hi
   unfold unvisit at h
   cases v with
   | none =>
     simp only [Res.ok.injEq] at h; subst h
-    refine ⟨hg, ?_⟩
+    refine ⟨rfl, hg, ?_⟩
     intro t' m hm
     simp only [List.mem_filter] at hm
     exact hp t' m hm.1
@@ -78,16 +90,12 @@ theorem unvisit_inv (w : World) (hT : TextIsGlobal w) (t : Text) (i : Id) (n : N
     · cases h
     · rename_i hany
       simp only [Res.ok.injEq] at h; subst h
-      obtain ⟨tgt, tn, f, ht, htn, hk, hd⟩ := hv v' rfl
-      have hdi : designates w (f + 1) i = some v' := by
-        simp [designates, hn, hr, ht, htn, hk, hd]
-      refine ⟨?_, ?_⟩
+      obtain ⟨cx', tgt, tn, f, ht, htn, hk, hd⟩ := hv v' rfl
+      refine ⟨rfl, ?_, ?_⟩
       · intro a b hab
-        simp only [List.mem_append, List.mem_cons, List.not_mem_nil, or_false, List.mem_map,
-          List.mem_filter] at hab
-        rcases hab with (hab | hab) | ⟨p, ⟨hpm, hpt⟩, hpe⟩
+        simp only [List.mem_append, List.mem_map, List.mem_filter] at hab
+        rcases hab with hab | ⟨p, ⟨hpm, hpt⟩, hpe⟩
         · exact hg a b hab
-        · simp only [Prod.mk.injEq] at hab; obtain ⟨rfl, rfl⟩ := hab; exact ⟨f + 1, hdi⟩
         · obtain ⟨pt, pm⟩ := p
           simp only [Prod.mk.injEq] at hpe; obtain ⟨rfl, rfl⟩ := hpe
           have hpt' : pt = t := by simpa using hpt
@@ -101,13 +109,14 @@ theorem unvisit_inv (w : World) (hT : TextIsGlobal w) (t : Text) (i : Id) (n : N
               exact ⟨(pt, pm), ⟨hpm, by simp⟩, hc⟩
             simp [kindOf, hnm] at h1
             exact h1
-          have htm : w.target pm.1 pt = some tgt := by rw [hT pm.1 i.1 pt]; exact ht
-          exact ⟨f + 1, by simp [designates, hnm, hrm, htm, htn, hk, hkm, hd]⟩
+          have htm : w.target nm.home pt n.kind = some (cx', tgt) := by
+            rw [← hkm, hT pm o nm n pt hnm hn hrm hr hkm]; exact ht
+          exact ⟨f + 1, by simp [designates, hnm, hrm, hkm, htm, htn, hk, hd]⟩
       · intro t' m hm
         simp only [List.mem_filter] at hm
         exact hp t' m hm.1
 
-theorem valueOf_designates (w : World) (tgt : Id) (tn : Node) (s : St) (v : Id)
+theorem valueOf_designates (w : World) (tgt : Obj) (tn : Node) (s : St) (v : Obj)
     (htn : w.node tgt = some tn) (hg : Good w s) (h : valueOf w tgt s = some v) :
     ∃ f, designates w f tgt = some v := by
   unfold valueOf at h
@@ -119,86 +128,138 @@ theorem valueOf_designates (w : World) (tgt : Id) (tn : Node) (s : St) (v : Id)
     simp [htn, hrt] at h
     exact hg _ _ (get_mem _ _ _ h)
 
+theorem pres_loadDoc (w : World) (rs : Loc → Nat → St → Res) (hrs : ∀ l k, Pres w (rs l k)) (d : Option Loc) :
+    Pres w (loadDoc w rs d) := by
+  intro s s' h hfl
+  unfold loadDoc at h
+  cases d with
+  | none => simp at h; subst h; exact ⟨hfl, id⟩
+  | some l =>
+    simp only at h
+    split at h
+    · simp at h; subst h; exact ⟨hfl, id⟩
+    · obtain ⟨h1, h2⟩ := pres_foldRes w (rs l) (hrs l) (w.roots l) _ s' h hfl
+      exact ⟨h1, fun hi => h2 ⟨by simpa [Good] using hi.1, by simpa [PendingOK] using hi.2⟩⟩
+
+theorem finish_inv (w : World) (hT : TextIsGlobal w) (rs : Nat → St → Res) (hrs : ∀ k, Pres w (rs k))
+    (t : Text) (o : Obj) (n : Node) (rw : Bool) (v : Option Obj) (s s' : St)
+    (hn : w.node o = some n) (hr : n.ref = some t)
+    (h : finish w rs n.kind t o rw v s = .ok s') (hfl : s'.foreign = false) :
+    s.foreign = false ∧ (Inv w s →
+      (∀ v', v = some v' → ∃ cx' tgt tn f, w.target n.home t n.kind = some (cx', tgt) ∧ w.node tgt = some tn ∧
+            tn.kind = n.kind ∧ designates w f tgt = some v') → Inv w s') := by
+  unfold finish at h
+  cases v with
+  | none =>
+    simp only at h
+    refine ⟨?_, fun hi _ => ?_⟩
+    · unfold unvisit at h; simp only [Res.ok.injEq] at h; subst h; exact hfl
+    · exact (unvisit_inv w hT t o n none s s' hn hr hi (by intro v' hv'; cases hv') h).2
+  | some v' =>
+    simp only at h
+    cases hf : foldRes rs (if rw = true then ((w.node v').map (·.kids)).getD [] else [])
+        { s with value := s.value ++ [(o, v')] } with
+    | err => simp [hf] at h
+    | panic => simp [hf] at h
+    | outOfFuel => simp [hf] at h
+    | ok s2 =>
+      simp only [hf] at h
+      have hfl2 : s2.foreign = false := by
+        unfold unvisit at h
+        simp only at h
+        split at h
+        · cases h
+        · simp only [Res.ok.injEq] at h; subst h; exact hfl
+      obtain ⟨h1, h2⟩ := pres_foldRes w rs hrs _ _ s2 hf hfl2
+      refine ⟨h1, fun hi hv => ?_⟩
+      obtain ⟨cx', tgt, tn, f, ht, htn, hk, hd⟩ := hv v' rfl
+      have hi1 : Inv w { s with value := s.value ++ [(o, v')] } := by
+        refine ⟨?_, by simpa [PendingOK] using hi.2⟩
+        intro a b hab
+        simp only [List.mem_append, List.mem_singleton, Prod.mk.injEq] at hab
+        rcases hab with hab | ⟨rfl, rfl⟩
+        · exact hi.1 a b hab
+        · exact ⟨f + 1, by simp [designates, hn, hr, ht, htn, hk, hd]⟩
+      exact (unvisit_inv w hT t o n (some v') s2 s' hn hr (h2 hi1)
+        (by intro v'' hv''; cases hv''; exact ⟨cx', tgt, tn, f, ht, htn, hk, hd⟩) h).2
+
 /-- Invariant preservation of the whole resolution, by induction on fuel. -/
-theorem resolve_inv (w : World) (hT : TextIsGlobal w) : ∀ fuel i s s',
-    Good w s → PendingOK w s → resolve w fuel i s = .ok s' → Good w s' ∧ PendingOK w s' := by
+theorem resolve_pres (w : World) (hT : TextIsGlobal w) : ∀ fuel cx o, Pres w (resolve w fuel cx o) := by
   intro fuel
   induction fuel with
-  | zero => intro i s s' _ _ h; simp [resolve] at h
+  | zero => intro cx o s s' h; simp [resolve] at h
   | succ fuel ih =>
-    intro i s s' hg hp h
-    have ihF : ∀ (l : Loc) ks s s', (Good w s ∧ PendingOK w s) →
-        foldRes (fun k s => resolve w fuel (l, k) s) ks s = .ok s' → Good w s' ∧ PendingOK w s' :=
-      fun l => foldRes_inv (fun s => Good w s ∧ PendingOK w s) _
-        (fun k s s' hi hk => ih (l, k) s s' hi.1 hi.2 hk)
+    intro cx o s s' h hfl
     simp only [resolve] at h
-    cases hn : w.node i with
+    cases hn : w.node o with
     | none => simp [hn] at h
     | some n =>
       simp only [hn] at h
       cases hr : n.ref with
-      | none => simp only [hr] at h; exact ihF _ _ _ _ ⟨hg, hp⟩ h
+      | none =>
+        simp only [hr] at h
+        exact pres_foldRes w _ (fun k => ih cx k) _ s s' h hfl
       | some t =>
         simp only [hr] at h
-        by_cases h1 : (s.get i).isSome = true
-        · simp [h1] at h; subst h; exact ⟨hg, hp⟩
+        by_cases h1 : (s.get o).isSome = true
+        · rw [if_pos h1] at h; cases h; exact ⟨hfl, id⟩
         · rw [if_neg h1] at h
           by_cases h2 : s.inprog.contains t = true
-          · simp only [h2, if_true] at h; simp at h; subst h
-            refine ⟨hg, ?_⟩
+          · rw [if_pos h2] at h; simp only [Res.ok.injEq] at h; subst h
+            refine ⟨hfl, fun hi => ⟨hi.1, ?_⟩⟩
             intro t' m hm
             simp only [List.mem_append, List.mem_singleton, Prod.mk.injEq] at hm
             rcases hm with hm | ⟨rfl, rfl⟩
-            · exact hp t' m hm
+            · exact hi.2 t' m hm
             · exact ⟨n, hn, hr⟩
           · rw [if_neg h2] at h
-            -- the document load
-            have hs1 : Good w { s with inprog := s.inprog ++ [t] } ∧ PendingOK w { s with inprog := s.inprog ++ [t] } :=
-              ⟨by simpa [Good] using hg, by simpa [PendingOK] using hp⟩
-            cases hr1 : loadDoc w (fun l k s => resolve w fuel (l, k) s) (w.docOf i.1 t) { s with inprog := s.inprog ++ [t] } with
+            cases hr1 : loadDoc w (fun l k s => resolve w fuel l k s) (w.docOf cx t)
+                { s with inprog := s.inprog ++ [t], foreign := s.foreign || (cx != n.home) } with
             | err => simp [hr1] at h
             | panic => simp [hr1] at h
             | outOfFuel => simp [hr1] at h
             | ok s2 =>
               simp only [hr1] at h
-              have hs2 : Good w s2 ∧ PendingOK w s2 := by
-                unfold loadDoc at hr1
-                cases hd : w.docOf i.1 t with
-                | none => simp [hd] at hr1; subst hr1; exact hs1
-                | some l =>
-                  simp only [hd] at hr1
-                  split at hr1
-                  · simp at hr1; subst hr1; exact hs1
-                  · exact ihF l _ _ _ ⟨by simpa [Good] using hg, by simpa [PendingOK] using hp⟩ hr1
-              cases ht : w.target i.1 t with
-              | none => simp [ht] at h
-              | some tgt =>
-                simp only [ht] at h
-                cases htn : w.node tgt with
-                | none => simp [htn] at h
-                | some tn =>
-                  simp only [htn] at h
-                  by_cases hk : tn.kind = n.kind
-                  · simp only [hk, ne_eq, not_true_eq_false, if_false] at h
-                    by_cases hpi : n.kind = Kind.pathItem ∧ tn.ref.isSome = true
-                    · -- path item whose target is itself a reference
-                      rw [if_pos hpi] at h
-                      refine unvisit_inv w hT t i n _ s2 s' hn hr hs2.1 hs2.2 ?_ h
-                      intro v' hv'
-                      exact ⟨tgt, tn, (hs2.1 _ _ (get_mem _ _ _ hv')).choose, ht, htn, hk,
-                        (hs2.1 _ _ (get_mem _ _ _ hv')).choose_spec⟩
-                    · rw [if_neg hpi] at h
-                      cases hres : resolve w fuel tgt s2 with
-                      | err => simp [hres] at h
-                      | panic => simp [hres] at h
-                      | outOfFuel => simp [hres] at h
-                      | ok s3 =>
-                        simp only [hres] at h
-                        obtain ⟨hg3, hp3⟩ := ih tgt s2 s3 hs2.1 hs2.2 hres
-                        refine unvisit_inv w hT t i n _ s3 s' hn hr hg3 hp3 ?_ h
-                        intro v' hv'
-                        obtain ⟨f, hf⟩ := valueOf_designates w tgt tn s3 v' htn hg3 hv'
-                        exact ⟨tgt, tn, f, ht, htn, hk, hf⟩
-                  · simp [hk] at h
+              have hL := pres_loadDoc w (fun l k s => resolve w fuel l k s) (fun l k => ih l k) (w.docOf cx t) _ s2 hr1
+              have key : s2.foreign = false ∧ (cx = n.home → Inv w s2 → Inv w s') := by
+                by_cases hE : w.emptyTarget cx t n.kind = true
+                · rw [if_pos hE] at h; cases h; exact ⟨hfl, fun _ hi => hi⟩
+                rw [if_neg hE] at h
+                cases ht : w.target cx t n.kind with
+                | none => simp only [ht] at h; split at h <;> cases h
+                | some p =>
+                  obtain ⟨cx', tgt⟩ := p
+                  simp only [ht] at h
+                  cases htn : w.node tgt with
+                  | none => simp [htn] at h
+                  | some tn =>
+                    simp only [htn] at h
+                    by_cases hk : tn.kind = n.kind
+                    · simp only [hk, ne_eq, not_true_eq_false, if_false] at h
+                      by_cases hpi : n.kind = Kind.pathItem ∧ tn.ref.isSome = true
+                      · rw [if_pos hpi] at h
+                        obtain ⟨a, b⟩ := finish_inv w hT _ (fun k => ih cx k) t o n false (s2.get tgt) s2 s' hn hr h hfl
+                        refine ⟨a, fun hcx hi => b hi (fun v' hv' => ?_)⟩
+                        have hd := hi.1 _ _ (get_mem _ _ _ hv')
+                        exact ⟨cx', tgt, tn, hd.choose, hcx ▸ ht, htn, hk, hd.choose_spec⟩
+                      · rw [if_neg hpi] at h
+                        cases hres : resolve w fuel cx' tgt s2 with
+                        | err => simp [hres] at h
+                        | panic => simp [hres] at h
+                        | outOfFuel => simp [hres] at h
+                        | ok s3 =>
+                          simp only [hres] at h
+                          obtain ⟨a, b⟩ := finish_inv w hT _ (fun k => ih cx k) t o n _ (valueOf w tgt s3) s3 s' hn hr h hfl
+                          obtain ⟨c, d⟩ := ih cx' tgt s2 s3 hres a
+                          refine ⟨c, fun hcx hi => b (d hi) (fun v' hv' => ?_)⟩
+                          obtain ⟨f, hf⟩ := valueOf_designates w tgt tn s3 v' htn (d hi).1 hv'
+                          exact ⟨cx', tgt, tn, f, hcx ▸ ht, htn, hk, hf⟩
+                    · simp [hk] at h
+              obtain ⟨k1, k2⟩ := key
+              obtain ⟨l1, l2⟩ := hL k1
+              have hsf : s.foreign = false ∧ cx = n.home := by
+                simp only [Bool.or_eq_false_iff, bne_eq_false_iff_eq] at l1
+                exact l1
+              exact ⟨hsf.1, fun hi => k2 hsf.2 (l2 ⟨by simpa [Good] using hi.1, by simpa [PendingOK] using hi.2⟩)⟩
 
 end KinModel.Loader
